@@ -136,6 +136,10 @@ struct Writer {
     /// IDs of the files that were written by a merge which failed before it could synchronize
     /// them to disk. Entries in the KeyDir may point into them.
     unsynced_merge_fileids: Vec<u64>,
+
+    /// IDs of the immutable files that are known to be on disk completely, because this
+    /// instance has synchronized them.
+    durable_fileids: BTreeSet<u64>,
 }
 
 /// The reader reads log entries from data files given the locations found in KeyDir. Since data files
@@ -191,6 +195,7 @@ impl Bitcask {
             active_fileid,
             written_bytes: 0,
             unsynced_merge_fileids: Vec::new(),
+            durable_fileids: BTreeSet::new(),
         }));
 
         let handle = Handle {
@@ -708,6 +713,30 @@ impl Writer {
         // Switch to a new active file above the merge files before touching the merged files,
         // the active file could be one of them
         self.new_active_datafile(*merge_fileid + 1)?;
+
+        // The files that stay may hold the current copy of values whose older, durable copies are
+        // in the files that are removed now, and they may never have been synchronized: a merge
+        // that failed leaves such files behind, and an instance that is opened later can not tell.
+        // Nothing is removed before every file that stays has been synchronized once.
+        let kept: Vec<u64> = self
+            .ctx
+            .stats
+            .iter()
+            .map(|e| *e.key())
+            .filter(|id| {
+                *id < self.active_fileid
+                    && !fileids_to_merge.contains(id)
+                    && !self.durable_fileids.contains(id)
+            })
+            .collect();
+        for id in kept {
+            match fs::File::open(utils::datafile_name(path, id)) {
+                Ok(file) => file.sync_all()?,
+                Err(e) if e.kind() == io::ErrorKind::NotFound => {}
+                Err(e) => return Err(e.into()),
+            }
+            self.durable_fileids.insert(id);
+        }
 
         // Remove stale files from system and storage statistics
         for id in &fileids_to_merge {
